@@ -45,8 +45,8 @@ func c37(r *core.Run) {
 			funcs = append(funcs, f)
 		}
 	}
-	r.Floor("C37.X1", "ReadMsg sites ("+strings.Join(pkgNames, " ")+")", nRead, 30)
-	r.Floor("C37.X1", "packages that read peer messages", len(pkgNames), 9)
+	r.Floor("C37.X1", "ReadMsg sites ("+strings.Join(pkgNames, " ")+")", nRead, 15)
+	r.Floor("C37.X1", "packages that read peer messages", len(pkgNames), 5)
 	t := core.NewTaint(w, funcs)
 	t.Dispatch["(*pkg/chunkinfo.ChunkInfo).chunkPutChanUpdate"] = [2]int{3, 4}
 	t.Run()
@@ -59,7 +59,7 @@ func c37(r *core.Run) {
 			}
 		})
 	}
-	r.Floor("C37.X1", "peer-controlled SSA values found", ntv, 300)
+	r.Floor("C37.X1", "peer-controlled SSA values found", ntv, 100)
 
 	type finding struct {
 		fn   *ssa.Function
@@ -318,7 +318,7 @@ func c37(r *core.Run) {
 		r.Saw(core.FuncName(f.fn))
 		r.Check(f.rule, lsKey(f.rule, f.fn, f.what), f.in.Pos(), false, "no peer-controlled value reaches a panicking operation unguarded", f.what+": "+f.why)
 	}
-	r.Floor("C37.X1", "guarded + unguarded sink sites examined", len(oks)+len(sinks), 10)
+	r.Floor("C37.X1", "guarded + unguarded sink sites examined", len(oks)+len(sinks), 5)
 }
 
 func fieldName(fa *ssa.FieldAddr) string {
